@@ -290,3 +290,19 @@ def r8(ctx, R):
     vals = [ast.unparse(k.value) for c in _record_calls(fn) for k in c.keywords if k.arg == 'value']
     ok = len(vals) == 1 and store.sub('S', vals[0]) == 'L.prob.work_counters[key].niter - S[step.status.slot][level_number][key]'
     R.check(ok, 'LogWork.post_step :: recorded work = counter now - counter at the pre_step of this slot and level', f'{w}.post_step', 'L.prob.work_counters[key].niter - S[step.status.slot][level_number][key]', vals)
+
+
+@rule('C14', 'C14.R9', 'hook registry: a hook class is instantiated once per controller and duplicates are recognised by EXACT type (a subclass registered earlier must not swallow its base class: both record their own quantities)', floor=2)
+def r9(ctx, R):
+    repo = ctx.repo
+    rel = 'pySDC/core/controller.py'
+    fn = repo.func(rel, 'Controller.add_hook')
+    w = f'{rel}:Controller.add_hook'
+    R.fn(w)
+    ifs = [s for s in walk_no_nested(fn) if isinstance(s, ast.If)]
+    ok = len(ifs) == 1
+    test = ast.unparse(ifs[0].test) if ifs else ''
+    exact = re.fullmatch(r'hook not in \[type\((\w+)\) for \1 in self\.hooks\]', test) is not None or re.fullmatch(r'not any\(\(?type\((\w+)\) (is|==) hook for \1 in self\.hooks\)?\)', test) is not None or re.fullmatch(r'all\(\(?type\((\w+)\) (is not|!=) hook for \1 in self\.hooks\)?\)', test) is not None
+    R.check(ok and exact, 'Controller.add_hook :: a hook is skipped only if an instance of exactly this class is registered already', w, 'hook not in [type(me) for me in self.hooks]  (type identity, not isinstance)', test)
+    body = [ast.unparse(s) for s in (ifs[0].body if ifs else [])]
+    R.check(len(body) == 1 and re.fullmatch(r'self\.(_Controller)?__hooks \+= \[hook\(\)\]', body[0]) is not None, 'Controller.add_hook :: the class is instantiated and appended once', w, 'self.__hooks += [hook()]', body)
